@@ -502,6 +502,9 @@ def run(prop, tier, replay=None):
             print("replay:", d)
             if d:
                 rep.violation(f"{prop}/replay", str(d), payload)
+        elif "case" in payload and "fault_result" in payload:
+            from . import ws_deprecated
+            ws_deprecated.run_crash(rep, tier, sd, only=[payload["case"]])
         elif payload.get("io"):
             case, diffs = _w_io((payload["graph"], payload.get("seed", 0)))
             print("problems:", diffs)
